@@ -9,7 +9,7 @@ RULE = ("the full cross product (declaration context: module / function / block,
         "unpacking `const [C, z] = [v, 0]` or as `export const`; class name / imported module / imported module under another name / imported member) x (type: int, str, bool, [int...], int?, object with a field, optional object, optional list) x (write form: =, += -= *= /= %=, ?= in "
         "statement / if / while position, modify = from an inner function, c[i] = v, c[i] += v, c.f = v, c.f += v, (get c).f += v, (c or d).f += v, (get c)[i] += v, reuse as "
         "from-loop counter, unpacking) x (write context: same scope, nested block, loop body, nested function, method, another "
-        "module), inapplicable combinations skipped by typing, is enumerated completely in both tiers. Oracle: the program is "
+        "module), inapplicable combinations skipped by typing, is enumerated completely in both tiers; (c or d) is used with the constant as the present value AND as the fallback. Every write form additionally runs once as a NON-CONST TWIN (the same program without the `const` keyword), which must be accepted and must run: a form that is rejected for a reason other than constness would make the main verdict vacuous (a failing twin is reported as inconclusive, exit 2, never as a violation). Oracle: the program is "
         "rejected at compile time, or - for forms that by the language's rules create a different variable (plain `=` inside a "
         "nested function or method) - it runs and both the declaring scope and a closure created before the write still "
         "observe the initializer. Non-trivial = the write context differs from the declaration context; distinct by "
@@ -22,11 +22,11 @@ TYPES = {
     "int": ("int", "5", "7", "C", "5"),
     "str": ("str", "\"k\"", "\"z\"", "C", "k"),
     "bool": ("bool", "true", "false", "C", "true"),
-    "list": ("[int...]", "[1, 2]", "[9]", "C", "[1, 2]"),
+    "list": ("[int...]", "[1, 2]", "lz", "C", "[1, 2]"),        # an un-annotated list literal cannot be assigned: use a typed variable
     "opt": ("int?", "5", "7", "C", "5"),
     "obj": (None, "K()", "K()", "C.f", "1"),
     "optobj": ("K?", "K()", "K()", "(get C).f", "1"),
-    "optlist": ("[int...]?", "[1, 2]", "[9]", "get C", "[1, 2]"),
+    "optlist": ("[int...]?", "[1, 2]", "lz", "get C", "[1, 2]"),
 }
 OPS = ["+=", "-=", "*=", "/=", "%="]
 
@@ -55,6 +55,8 @@ def write_forms(t):
         out.append(("field-assign", "C.f = 9", False))
         out += [("field-op" + op, "C.f %s 9" % op, False) for op in ("+=", "*=")]
     SEP = "if true {\n}\n"      # a statement must not start with `(` right after an expression: it would be parsed as a call
+    if t == "obj":
+        out += [("or-fallback-field-op+=", "nobody: K? = nil\n" + SEP + "(nobody or C).f += 9", False)]
     if t == "optobj":
         out += [("unwrapped-field-op+=", SEP + "(get C).f += 9", False), ("or-field-op+=", SEP + "(C or K()).f += 9", False), ("unwrapped-field-op*=", SEP + "(get C).f *= 9", False)]
     if t == "optlist":
@@ -108,7 +110,7 @@ def decl_forms(decl_ctx, t):
     return out
 
 
-def program(decl_ctx, t, form, wtext, wctx, dform="typed"):
+def program(decl_ctx, t, form, wtext, wctx, dform="typed", const=True):
     ann, init, other, obs, exp = TYPES[t]
     pre = "class K {\n\tf: int\n\tconstructor(self) {\n\t\tself.f = 1\n\t}\n}\n" if t in ("obj", "optobj") else ""
     if dform == "typed":
@@ -119,7 +121,9 @@ def program(decl_ctx, t, form, wtext, wctx, dform="typed"):
         decl = "const [C, cz] = [%s, 0]" % init
     else:
         decl = "export const C: %s = %s" % (ann, init)
-    aux = "src: int? = 7\n" if t == "opt" else ""
+    if not const:
+        decl = decl.replace("const ", "", 1)        # the non-const twin: the same write must then be accepted
+    aux = "src: int? = 7\n" if t == "opt" else ("lz: [int...] = [9]\n" if t in ("list", "optlist") else "")
     reader = "rd = fn() -> %s {\n\treturn %s\n}" % ({"int": "int", "str": "str", "bool": "bool", "list": "[int...]", "opt": "int?", "obj": "int", "optobj": "int", "optlist": "[int...]"}[t], obs)
     body = "%s\n%s%s\n%s\nprint \"@obs\"\nprint %s\nprint rd()" % (decl, aux, reader, place_write(wtext, wctx), obs)
     if decl_ctx == "module":
@@ -174,6 +178,21 @@ def enumerated(tier, seed):
                     for dform in decl_forms(decl_ctx, t):
                         cases.append({"desc": {"decl": decl_ctx if dform == "typed" else decl_ctx + "/" + dform, "type": t, "form": form, "wctx": wctx},
                                       "files": {"main.ms": program(decl_ctx, t, form, wtext, wctx, dform)}, "expect": TYPES[t][4]})
+    # twins: the same program with the `const` keyword removed must be ACCEPTED - otherwise the write form is rejected for a
+    # reason that has nothing to do with constness and its "rejected" verdict above would be vacuous
+    seen_twin = set()
+    for decl_ctx in DECL_CTX:
+        for t in TYPES:
+            for form, wtext, inner in write_forms(t):
+                if form in ("typed-redeclare", "unpack"):
+                    continue           # unpacking never targets an existing name, const or not
+                for wctx in ("same", "fn") if not inner else ("fn",):
+                    for dform in decl_forms(decl_ctx, t):
+                        if dform == "unpack" or (dform == "untyped" and t == "list") or (decl_ctx, t, form, wctx, dform) in seen_twin:
+                            continue           # an unpacked list is only allowed as a const
+                        seen_twin.add((decl_ctx, t, form, wctx, dform))
+                        cases.append({"desc": {"decl": decl_ctx + "/" + dform, "type": t, "form": form, "wctx": wctx}, "twin": True,
+                                      "files": {"main.ms": program(decl_ctx, t, form, wtext, wctx, dform, const=False)}, "expect": TYPES[t][4]})
     # controls: the same programs with a harmless statement in place of the write must be accepted and run
     # (otherwise "rejected" verdicts above would be vacuous)
     for decl_ctx in DECL_CTX:
@@ -218,6 +237,14 @@ def check(case):
     res, fails, _ = scenario.execute(sc)
     key = "%s|%s|%s|%s" % (d["decl"], d["type"], d["form"], d["wctx"])
     rejected = "Did not compile" in res["run"].stderr
+    if case.get("twin"):
+        ok = not rejected and res["run"].klass == "ok"
+        r = CaseResult(evals=0, labels=["twin=" + ("accepted" if ok else "REJECTED")], sample=None)
+        if not ok and not (d["wctx"] == "fn" and d["form"] in ("assign", "modify") and False):
+            r.failure = fail("the non-const twin of a write form was not accepted and run: the form is invalid for another reason (harness problem, not a violation)\n%s\n%s" % (case["files"]["main.ms"], (res["run"].stdout + res["run"].stderr)[-500:]),
+                             "C10:twin", sc, case=d)
+            r.failure["inconclusive"] = True
+        return r
     if case.get("control"):
         ok = not fails and not rejected and "@w" in res["run"].stdout.split("\n")
         r = CaseResult(evals=0, labels=["control=" + ("ok" if ok else "FAILED")], sample=None)
